@@ -103,6 +103,11 @@ class Check:
                 self.assume_note("assumed contract: " + a)
             if p.outcome == "cut" and not allow_cut:
                 raise Undecided(f"{qualname}: {p.value}")
+        # obligations emitted inside the run (loop invariants, callee preconditions, stub preconditions)
+        short = qualname.split(".", 1)[-1]
+        for i, p in enumerate(paths):
+            for (name, facts, goal, kind) in p.obligs:
+                self.vc(f"{short}.{name}.path{i}", facts, goal, func=f"{module}.{qualname}", kind=kind)
         self.path_count += len(paths)
         return paths
 
@@ -183,3 +188,40 @@ def deriv(e, x):
 
 def sel(paths, outcome="return"):
     return [p for p in paths if p.outcome == outcome]
+
+
+def loop_spec(invariant, havoc):
+    """Loop contract (DESIGN 2.1): ``invariant(it, env)`` -> list of formulas over the current values of the
+    loop variables; ``havoc`` maps every name assigned in the loop to a factory of a fresh value.
+    Generates: invariant on entry; invariant preserved by one arbitrary iteration; continues after the loop
+    from invariant and not guard.  Termination is not proved."""
+    import ast as _ast
+
+    def spec(it, st, env, clo):
+        assigned = {n.id for b in st.body for n in _ast.walk(b) if isinstance(n, _ast.Name) and isinstance(n.ctx, _ast.Store)}
+        missing = assigned - set(havoc)
+        if missing:
+            raise Undecided(f"loop contract of {clo.qualname}: names {sorted(missing)} are assigned in the loop but not havocked")
+        for b in st.body:
+            for n in _ast.walk(b):
+                if isinstance(n, _ast.Attribute) and isinstance(n.ctx, _ast.Store):
+                    raise Undecided(f"loop contract of {clo.qualname}: loop stores to attribute {_ast.unparse(n)}")
+                if isinstance(n, (_ast.Return, _ast.Break)):
+                    raise Undecided(f"loop contract of {clo.qualname}: loop contains {type(n).__name__}")
+        for k, f in enumerate(invariant(it, env)):
+            it.oblige(f"loop-invariant.entry.{k}", f, kind="inv")
+        for name, fac in havoc.items():
+            env.vars[name] = fac(it)
+        for f in invariant(it, env):
+            it.assume(f)
+        if it.decide_free():
+            if not it.truth(it.eval(st.test, env)):
+                raise PathEnd()
+            it.exec_block(st.body, env, clo)
+            for k, f in enumerate(invariant(it, env)):
+                it.oblige(f"loop-invariant.preserved.{k}", f, kind="inv")
+            raise PathEnd()
+        if it.truth(it.eval(st.test, env)):
+            raise PathEnd()
+        it.event(kind="loop-exit", where=clo.qualname)
+    return spec
